@@ -4,6 +4,8 @@ import Verif.Props.C05
 import Verif.Props.C18
 import Verif.Props.C08
 import Verif.Proofs.C09Json
+import Verif.Proofs.C09XmlMain
+import Verif.Proofs.C09SvgMain
 /-!
 # C09 — accepted input yields syntactically valid output that is accepted again
 
@@ -83,5 +85,82 @@ theorem datauri_output_parses_partial : type_of% @Verif.Props.C18.dataURI_holds_
 /-- **Media types** (`minify.Mediatype`): the result is the input with white space outside quoted strings deleted and letters
     outside quoted strings lower-cased; quoted strings are copied, so a closed quoted string stays closed -/
 theorem mediatype_output_spec : type_of% @Verif.Props.C18.mediatype_spec := @Verif.Props.C18.mediatype_spec
+
+/-! ## Xml (XML and SVG documents; `Proofs/C09XmlMain.lean`, `Proofs/C09SvgMain.lean`) -/
+
+/-- **XML tokeniser round trip** (specification side): every grammatical token stream in reader's view is read back
+    from its bytes by the independent XML 1.0 tokeniser exactly -/
+theorem xml_lex_roundtrip : type_of% @Verif.Proofs.C09Xml.xml_lex_roundtrip := @Verif.Proofs.C09Xml.xml_lex_roundtrip
+
+/-- **XML tokeniser soundness** (specification side): whatever the tokeniser returns is grammatical and is read back
+    from its own serialisation -/
+theorem xml_lex_sound : type_of% @Verif.Proofs.C09Xml.xml_lex_sound := @Verif.Proofs.C09Xml.xml_lex_sound
+
+/-- **XML, bytes level, no guard**: for every byte string the independent tokeniser accepts, the output of the model of
+    `xml.Minify` on its tokens is accepted again and re-tokenises to exactly the intended stream -/
+theorem xml_accepted_in_accepted_out : type_of% @Verif.Proofs.C09Xml.xml_accepted_in_accepted_out :=
+  @Verif.Proofs.C09Xml.xml_accepted_in_accepted_out
+
+/-- every finite sequence of passes (any options) over an accepted document is defined and ends in an accepted document -/
+theorem xml_passes_defined : type_of% @Verif.Proofs.C09Xml.xml_passes_defined := @Verif.Proofs.C09Xml.xml_passes_defined
+
+/-- **XML flagship** (guard: trigger of K-C09-Xml-1): for all options and all lexer-contract streams with grammatical
+    tokens, the output bytes of the model of `xml.Minify` re-tokenise to exactly the emitted stream (reader's view),
+    which is grammatical -/
+theorem xml_output_relexes_partial : type_of% @Verif.Proofs.C09Xml.xml_output_relexes_partial :=
+  @Verif.Proofs.C09Xml.xml_output_relexes_partial
+
+/-- the stream read back has exactly the markup skeleton (tags, attributes, CDATA, DOCTYPE, PI targets) and the bytes
+    of the emitted stream -/
+theorem xml_output_markup_exact : type_of% @Verif.Proofs.C09Xml.xml_output_markup_exact :=
+  @Verif.Proofs.C09Xml.xml_output_markup_exact
+
+/-- the unguarded flagship statement is false: `<a><?x k="?&gt;"?></a>` → `<a><?x k="?>"?></a>` (K-C09-Xml-1) -/
+theorem xml_output_relexes_counterexample : type_of% @Verif.Proofs.C09Xml.xml_output_relexes_counterexample :=
+  @Verif.Proofs.C09Xml.xml_output_relexes_counterexample
+
+/-- **XML second pass** (same guard): the stream read back from the output satisfies all hypotheses of the C06 and
+    C09 theorems again; the output of a second pass (any options) re-tokenises to its intended stream -/
+theorem xml_second_pass_defined : type_of% @Verif.Proofs.C09Xml.xml_second_pass_defined :=
+  @Verif.Proofs.C09Xml.xml_second_pass_defined
+
+/-- XML minification is not idempotent (`<a><![CDATA[ x ]]></a>` → `<a> x </a>` → `<a>x</a>`); no C09 violation -/
+theorem xml_idempotent_counterexample : type_of% @Verif.Proofs.C09Xml.xml_idempotent_counterexample :=
+  @Verif.Proofs.C09Xml.xml_idempotent_counterexample
+
+/-- **SVG `bracketWriter`**: `bw.n` is the number of `]` at the end of everything written -/
+theorem xml_svg_bracket_count : type_of% @Verif.Proofs.C09Xml.svg_bracket_count := @Verif.Proofs.C09Xml.svg_bracket_count
+
+/-- **SVG text branch**: for every `bw.n` and grammatical text token the written bytes are well-formed character
+    data and complete no `]]>` (outside `style` / without a CSS minifier; inside `style` these bytes go to the
+    sub-minifier) -/
+theorem xml_svg_text_wellformed : type_of% @Verif.Proofs.C09Xml.svg_text_wellformed :=
+  @Verif.Proofs.C09Xml.svg_text_wellformed
+
+/-- SVG text inside `style`, by contract `SubTextOk` on the sub-minifier -/
+theorem xml_svg_text_wellformed_sub : type_of% @Verif.Proofs.C09Xml.svg_text_wellformed_sub :=
+  @Verif.Proofs.C09Xml.svg_text_wellformed_sub
+
+/-- the contract is needed: a sub-minifier that only removes spaces creates `]]>` (K-C09-Xml-2 on the real code) -/
+theorem xml_svg_style_text_counterexample : type_of% @Verif.Proofs.C09Xml.svg_style_text_counterexample :=
+  @Verif.Proofs.C09Xml.svg_style_text_counterexample
+
+/-- **SVG CDATA branch**: text path safe for every sub-minifier with legal output; kept path a well-formed CDATA
+    section outside `style`, inside `style` by contract `NoCdEndOut` -/
+theorem xml_svg_cdata_wellformed : type_of% @Verif.Proofs.C09Xml.svg_cdata_wellformed :=
+  @Verif.Proofs.C09Xml.svg_cdata_wellformed
+
+/-- the contract is needed: removing spaces inside a kept `style` CDATA section creates `]]>` (K-C09-Xml-2) -/
+theorem xml_svg_cdata_kept_counterexample : type_of% @Verif.Proofs.C09Xml.svg_cdata_kept_counterexample :=
+  @Verif.Proofs.C09Xml.svg_cdata_kept_counterexample
+
+/-- **SVG attribute values**: the preprocessed value is a sequence of units; `EscapeAttrVal` of any sequence of
+    units is a well-formed literal with that normalised value -/
+theorem xml_svg_attr_wellformed : type_of% @Verif.Proofs.C09Xml.svg_attr_wellformed :=
+  @Verif.Proofs.C09Xml.svg_attr_wellformed
+
+/-- `EscapeAttrVal` does not repair a sub-minifier result with a bare `&` or `<` (K-C09-Xml-3 on the real code) -/
+theorem xml_svg_attr_contract_needed : type_of% @Verif.Proofs.C09Xml.svg_attr_contract_needed :=
+  @Verif.Proofs.C09Xml.svg_attr_contract_needed
 
 end Verif.Props.C09
